@@ -190,8 +190,12 @@ func (r *treeRun) start() string {
 		keys = append(keys, Key{K: baseKey(x), Tag: -(i + 1)})
 	}
 	var t *stree.Tree[Key]
-	if pv := vk.PanicValue(func() { t = stree.New(r.c.Beta, r.compare, keys...) }); pv != nil {
+	arg := append([]Key(nil), keys...)
+	if pv := vk.PanicValue(func() { t = stree.New(r.c.Beta, r.compare, arg...) }); pv != nil {
 		return r.errf("New(beta=%d, %d keys) panicked: %v", r.c.Beta, len(keys), pv)
+	}
+	for i := range arg { // the caller may reuse its slice: the tree must not depend on it afterwards
+		arg[i] = Key{K: -1 << 50, Tag: -1 << 30}
 	}
 	// Reference: one representative per K; any of the supplied tags is allowed.
 	allowed := map[int64]map[int]bool{}
